@@ -96,11 +96,8 @@ func (p *principalInstance) doIntentRequestChecks(i Intent) error {
 		logrus.Info("principal: not connected to target")
 		checkIntentWithCert := func(cert *certs.Certificate) error {
 			p.targetCert = cert
-			err := p.checkIntent(i, cert)
-			if err != nil {
-				WriteIntentDenied(p.delegateConn, err.Error())
-			}
-			return err
+			// a refusal makes the set-up fail; the single denial is written below
+			return p.checkIntent(i, cert)
 		}
 		tc, err := p.setUpTargetConn(targURL, checkIntentWithCert)
 		if err != nil {
